@@ -1161,7 +1161,8 @@ def fam_seq(tier):
     for si in range(2000 if thorough else 120):
         sc.unit()
         sc.new(0)
-        ids = rnd.choice([[None, 1, 2], [0, 1, 2, 3, 4, 5, 6, 7, 8, 9], [None], [7], list(range(250, 256)), [None, 0, 255, 10]])
+        ids = rnd.choice([[None, 1, 2], [0, 1, 2, 3, 4, 5, 6, 7, 8, 9], [None], [7], list(range(250, 256)), [None, 0, 255, 10],
+                          [rnd.randrange(256) for _ in range(3)], [None, 0], [rnd.randrange(10, 250), None]])
         L = rnd.choice([50, 80, 120, 500]) if thorough else rnd.choice([30, 50, 80])
         decmode = si % 3          # 0: never decode, 1: always (payloads rarely decode: error path), 2: random
         for kw in random_stream(rnd, L, ids, maxn=rnd.choice([3, 5, 9])):
